@@ -253,7 +253,7 @@ func scenarioSparse(c *harness.Ctx) {
 		sp.WriteAt(data, int64(sector)*4096+4)
 		binary.BigEndian.PutUint32(hdr[:], uint32(sector)<<8|uint32(cnt))
 		sp.WriteAt(hdr[:], 4*int64(k.Z*32+k.X))
-		binary.BigEndian.PutUint32(hdr[:], 1_600_000_000)
+		binary.BigEndian.PutUint32(hdr[:], []uint32{1_600_000_000, 1_900_000_000, 0x7fffff00, 5}[seq%4])
 		sp.WriteAt(hdr[:], 4096+4*int64(k.Z*32+k.X))
 		model[k] = data
 	}
